@@ -252,3 +252,36 @@ Definition object_store_init (fix_boundary fix_store : bool) (k : script) : resu
   | Ok r => Ok r
   | Err e => Err (if fix_boundary then translate e else e)
   end.
+
+(* ---------- the except clauses the model mirrors, per function, in source order;
+   tied to the source by Props/C17.gen_handlers (tools/gen_c05.py reads them from the AST) ---------- *)
+Definition modelled_handlers_pinned : list (str * list str) :=
+  [([111;112;101;110], []);
+   ([100;111;99;117;109;101;110;116;95;118;101;114;115;105;111;110], [[112;108;105;115;116;108;105;98;46;73;110;118;97;108;105;100;70;105;108;101;69;120;99;101;112;116;105;111;110]]);
+   ([95;111;112;101;110;95;122;105;112;102;105;108;101], [[66;97;100;90;105;112;70;105;108;101]]);
+   ([95;114;101;97;100;95;111;98;106;101;99;116;115;95;102;114;111;109;95;112;97;99;107;97;103;101], []);
+   ([95;114;101;97;100;95;111;98;106;101;99;116;115;95;102;114;111;109;95;122;105;112;102;105;108;101], [[75;101;121;69;114;114;111;114]]);
+   ([95;115;116;111;114;101;95;98;108;111;98], [[69;120;99;101;112;116;105;111;110]]);
+   ([79;98;106;101;99;116;83;116;111;114;101;46;95;95;105;110;105;116;95;95], [])].
+Definition modelled_handlers_repaired : list (str * list str) :=
+  [([111;112;101;110], []);
+   ([100;111;99;117;109;101;110;116;95;118;101;114;115;105;111;110], [[112;108;105;115;116;108;105;98;46;73;110;118;97;108;105;100;70;105;108;101;69;120;99;101;112;116;105;111;110]]);
+   ([95;111;112;101;110;95;122;105;112;102;105;108;101], [[66;97;100;90;105;112;70;105;108;101]]);
+   ([95;114;101;97;100;95;111;98;106;101;99;116;115;95;102;114;111;109;95;112;97;99;107;97;103;101], []);
+   ([95;114;101;97;100;95;111;98;106;101;99;116;115;95;102;114;111;109;95;122;105;112;102;105;108;101], [[75;101;121;69;114;114;111;114]]);
+   ([95;115;116;111;114;101;95;98;108;111;98], [[69;120;99;101;112;116;105;111;110]]);
+   ([79;98;106;101;99;116;83;116;111;114;101;46;95;95;105;110;105;116;95;95], [[40;70;105;108;101;69;114;114;111;114;44;32;70;105;108;101;70;111;114;109;97;116;69;114;114;111;114;44;32;85;110;115;117;112;112;111;114;116;101;100;69;114;114;111;114;41]; [79;83;69;114;114;111;114]; [69;120;99;101;112;116;105;111;110]])].
+Fixpoint strs_eqb (a b : list str) : bool :=
+  match a, b with
+  | [], [] => true
+  | x :: a', y :: b' => str_eqb x y && strs_eqb a' b'
+  | _, _ => false
+  end.
+Fixpoint handlers_eqb (a b : list (str * list str)) : bool :=
+  match a, b with
+  | [], [] => true
+  | (f, h) :: a', (g, i) :: b' => str_eqb f g && strs_eqb h i && handlers_eqb a' b'
+  | _, _ => false
+  end.
+Definition handlers_match (h : list (str * list str)) : bool :=
+  handlers_eqb h modelled_handlers_pinned || handlers_eqb h modelled_handlers_repaired.
